@@ -91,6 +91,19 @@
 //	                  an honest peer carries that peer's agent string. EvtPeerIdentificationFailed names only peers
 //	                  that had a connection, and never an honest peer (their links are fault-free).
 //
+// HARNESS ARTEFACTS AUDITED. (A) observer effect: every state read (snapPeer on the real pstoremem: PeersWithKeys,
+// PeersWithAddrs, Addrs, GetProtocols, Get, GetPeerRecord, Peers; Swarm.ConnsToPeer, Conn.GetStreams/Stat) was read in
+// the implementation: read locks only, no clean-up, no write-back; the one caching read, KeyBook.PubKey (stores a key
+// extracted from the ID), is only called for peers already listed by PeersWithKeys; reads go to the real pstoremem, not
+// through the counting pass-through, and only at quiescent instants. The exception was IdentifyWait: it creates the
+// service's entry for a connection and STARTS identify; called at every Connected it made the harness, not the
+// service's own Connected handler, the possible starter of every exchange. In half of the runs (lazyIdentifyWait) it is
+// now called only after the activity has been judged. (B) warm-up: H1 and H2 used to connect and be identified before
+// byz in EVERY run, so the observer's first connection / first identify exchange / first push never met byzantine
+// behaviour. A third of the runs is now COLD: byz is the first contact, the honest peers connect afterwards and their
+// entries are checked against what they announce (class cross-talk/<H>-identified-after-byz). Dropped in cold runs:
+// only the before/after equality of H1/H2 (replaced by "nothing is known about them" until they connect).
+//
 // OBSERVATION (probe observed-disconnected-peer-above-unconnected-cap, never a violation; decision of the lead: the
 // statement says "capped" without a figure and 500, the connected cap, is never exceeded): a disconnected peer can keep
 // up to 500 addresses at RecentlyConnectedAddrTTL although the address book's per-peer cap for unconnected addresses
@@ -298,6 +311,8 @@ type plan struct {
 	link        simnet.LinkMode
 	latency     bool
 	bigProtos   bool // observer's peerstore accepts > 128 protocols
+	cold        bool // byz is the observer's FIRST contact: the honest peers connect only after the byzantine activity
+	lazyWait    bool // the harness calls IdentifyWait (which itself starts identify) only after the activity has been judged
 	late        bool // template "message consumed after the last disconnect" (see drawPlan)
 	perPeer     int  // observer's peerstore is built with pstoremem.WithMaxAddressesPerPeer(perPeer)
 	muteObsPush bool // byz never answers multistream-select on the streams the observer opens after its identify request (the observer's own pushes) and keeps them open
@@ -338,6 +353,8 @@ func drawPlan(g simrt.Gen) (*plan, *world) {
 	p.latency = g.Chance(1, 3)
 	p.bigProtos = g.Bool()
 	p.perPeer = []int{64, 32, 100}[g.Weighted(3, 1, 1)]
+	p.cold = g.Chance(1, 3)
+	p.lazyWait = g.Bool()
 	p.slow = []int{0, 10, 40, 150}[g.Weighted(3, 2, 2, 1)]
 	p.byzIP = []string{"10.0.1.2", "44.1.1.2"}[g.Weighted(3, 1)]
 	p.pre = g.Weighted(2, 2, 1)
@@ -479,6 +496,7 @@ type obsConn struct {
 	connected    uint64
 	disconnected uint64
 	waitReleased bool
+	waitStarted  bool
 	waitStart    time.Duration // virtual time of the IdentifyWait call
 	waitTimedOut bool
 	waitTook     time.Duration
@@ -640,6 +658,34 @@ func (s *slowPS) Put(p peer.ID, k string, v any) error {
 func (s *slowPS) AddPubKey(p peer.ID, k crypto.PubKey) error {
 	s.hook("AddPubKey", p)
 	return s.Peerstore.AddPubKey(p, k)
+}
+
+// startWaiter calls IdentifyWait for a connection the observer's swarm announced and watches the channel.
+func (x *exec) startWaiter(oc *obsConn) {
+	if oc.waitStarted {
+		return
+	}
+	oc.waitStarted = true
+	ids := x.O.Host.IDService()
+	simrt.GoNamed("c13-idwait", func() {
+		t0 := simrt.Now()
+		oc.waitStart = t0
+		ch := ids.IdentifyWait(oc.c)
+		tm := time.NewTimer(identifyWaitBound)
+		defer tm.Stop()
+		if simrt.Select("c13-idwait", false, simrt.RecvCase(ch), simrt.RecvCase(tm.C)) == 0 {
+			oc.waitReleased = true
+		} else {
+			oc.waitTimedOut = true
+		}
+		oc.waitTook = simrt.Now() - t0
+	})
+}
+
+func (x *exec) startWaiters() {
+	for _, oc := range x.obsConns {
+		x.startWaiter(oc)
+	}
 }
 
 // ---- byzantine behaviour ------------------------------------------------------------------
@@ -979,7 +1025,7 @@ func run(t *testing.T, tape *simrt.Tape) *common.Outcome {
 	o := &common.Outcome{}
 	pl, w := drawPlan(g)
 	x := &exec{o: o, w: w, pl: pl, completed: map[string]int{}}
-	o.Logf("security=%s link=%d latency=%v bigProtos=%v addrsPerPeer=%d lateTemplate=%v slowPeerstore=%d muteObserverPushes=%v rsaByz=%v wipe=%v byzIP=%s pre=%d overlap=%v longAdvance=%v trim=%v finalByObserver=%v", pl.sec, pl.link, pl.latency, pl.bigProtos, pl.perPeer, pl.late, pl.slow, pl.muteObsPush, pl.rsaByz, pl.wipe, pl.byzIP, pl.pre, pl.overlap, pl.longAdv, pl.trim, pl.finalObs)
+	o.Logf("security=%s link=%d latency=%v bigProtos=%v addrsPerPeer=%d lateTemplate=%v cold=%v lazyIdentifyWait=%v slowPeerstore=%d muteObserverPushes=%v rsaByz=%v wipe=%v byzIP=%s pre=%d overlap=%v longAdvance=%v trim=%v finalByObserver=%v", pl.sec, pl.link, pl.latency, pl.bigProtos, pl.perPeer, pl.late, pl.cold, pl.lazyWait, pl.slow, pl.muteObsPush, pl.rsaByz, pl.wipe, pl.byzIP, pl.pre, pl.overlap, pl.longAdv, pl.trim, pl.finalObs)
 	for i, c := range pl.conns {
 		dir := "byz dials"
 		if c.outbound {
@@ -1086,7 +1132,6 @@ func (x *exec) main(tape *simrt.Tape) {
 		}
 	}
 	defer closeO()
-	ids := O.Host.IDService()
 
 	var sub event.Subscription
 	sub, err = O.Bus.Subscribe([]any{new(event.EvtPeerIdentificationCompleted), new(event.EvtPeerIdentificationFailed)}, eventbus.BufSize(512))
@@ -1119,19 +1164,14 @@ func (x *exec) main(tape *simrt.Tape) {
 		ConnectedF: func(_ network.Network, c network.Conn) {
 			oc := &obsConn{c: c, connected: simrt.Stamp()}
 			x.obsConns = append(x.obsConns, oc)
-			simrt.GoNamed("c13-idwait", func() {
-				t0 := simrt.Now()
-				oc.waitStart = t0
-				ch := ids.IdentifyWait(c)
-				tm := time.NewTimer(identifyWaitBound)
-				defer tm.Stop()
-				if simrt.Select("c13-idwait", false, simrt.RecvCase(ch), simrt.RecvCase(tm.C)) == 0 {
-					oc.waitReleased = true
-				} else {
-					oc.waitTimedOut = true
-				}
-				oc.waitTook = simrt.Now() - t0
-			})
+			// IdentifyWait is not a pure observation: it creates the service's entry for the connection when the
+			// service's own Connected handler has not run yet, and it STARTS the identify exchange when nobody has.
+			// Calling it here for every connection would make it impossible for the service's own first-contact path
+			// (or a Disconnected) to be the first to meet a connection. In half of the runs it is therefore called
+			// only after the activity has been judged (startWaiters).
+			if !pl.lazyWait {
+				x.startWaiter(oc)
+			}
 		},
 		DisconnectedF: func(_ network.Network, c network.Conn) {
 			for _, oc := range x.obsConns {
@@ -1142,7 +1182,10 @@ func (x *exec) main(tape *simrt.Tape) {
 		},
 	})
 
-	// ---- honest peers
+	// ---- honest peers. Warm runs: they connect and are identified BEFORE byz shows up (baseline for the cross-talk
+	// comparison). Cold runs (a third): they only exist; byz is the first peer the observer ever meets, so the first
+	// inbound connection, identify's first exchange, the first push (rate limiter, emitters, lazily started parts) meet
+	// the byzantine behaviour, the races and the closes. The honest peers connect after the activity has been judged.
 	for i, id := range []*ident{w.h1, w.h2} {
 		h := x.node(id, 4001, true, fmt.Sprintf("%s%d", honestAgentPrefix, i+1), nil)
 		if h == nil {
@@ -1150,13 +1193,21 @@ func (x *exec) main(tape *simrt.Tape) {
 		}
 		x.H = append(x.H, h)
 		defer h.Close()
-		ctx, cancel := context.WithTimeout(context.Background(), 30*time.Second)
-		err := h.Host.Connect(ctx, O.AddrInfo())
-		cancel()
-		if err != nil {
-			o.Trouble = "honest connect: " + err.Error()
-			return
+	}
+	connectHonest := func() bool {
+		for _, h := range x.H {
+			ctx, cancel := context.WithTimeout(context.Background(), 30*time.Second)
+			err := h.Host.Connect(ctx, O.AddrInfo())
+			cancel()
+			if err != nil {
+				o.Trouble = "honest connect: " + err.Error()
+				return false
+			}
 		}
+		return true
+	}
+	if !pl.cold && !connectHonest() {
+		return
 	}
 
 	// ---- byzantine node
@@ -1232,6 +1283,9 @@ func (x *exec) main(tape *simrt.Tape) {
 	selfBefore := snapPeer(x.ps, w.obs.id)
 	peersBefore := peerSet(w, x.ps)
 	for _, name := range []string{"H1", "H2"} {
+		if pl.cold {
+			break // nothing known about them yet: the comparison below then demands that this stays so
+		}
 		if s := before[name]; len(s.addrs) == 0 || len(s.protos) == 0 || !strings.HasPrefix(s.agent, honestAgentPrefix) {
 			o.Trouble = fmt.Sprintf("honest peer %s not identified before the run: %v", name, s)
 			return
@@ -1364,9 +1418,37 @@ func (x *exec) main(tape *simrt.Tape) {
 	}
 	for _, oc := range x.obsConns {
 		// (a wait that is younger than the bound at this instant is judged at the end of the run)
-		if oc.waitTimedOut || (!oc.waitReleased && simrt.Now()-oc.waitStart > identifyWaitBound) {
+		if oc.waitTimedOut || (oc.waitStarted && !oc.waitReleased && simrt.Now()-oc.waitStart > identifyWaitBound) {
 			o.Violate("C13/identify-wait-not-released", "IdentifyWait of the observer's connection to %s (%s) did not close within %v (released=%v; sends: %s)", w.name(oc.c.RemotePeer()), oc.c.Stat().Direction, identifyWaitBound, oc.waitReleased, x.sendSummary())
 		}
+	}
+
+	// ---- lazy runs: only now does the harness itself ask for the identify-wait of every connection
+	x.startWaiters()
+
+	// ---- cold runs: the honest peers meet an observer whose identify has so far only dealt with byz
+	if pl.cold {
+		if !connectHonest() {
+			return
+		}
+		settle(time.Second)
+		x.startWaiters()
+		for i, id := range []*ident{w.h1, w.h2} {
+			hs := snapPeer(x.ps, id.id)
+			ok := hs.agent == fmt.Sprintf("%s%d", honestAgentPrefix, i+1) && hs.inKeys && contains(hs.addrs, id.addr.String()) && len(hs.protos) > 0
+			if k := x.ps.PubKey(id.id); ok && (k == nil || !id.id.MatchesPublicKey(k)) {
+				ok = false
+			}
+			for _, a := range hs.addrs {
+				if a != id.addr.String() && x.vouchedByAny(a) {
+					ok = false
+				}
+			}
+			if !ok {
+				o.Violate("C13/cross-talk/"+id.name+"-identified-after-byz", "honest %s connected after the byzantine activity; the observer's entry is not what %s announced (agent %s%d, its key, its listen address %s, nothing from a byzantine message): %v", id.name, id.name, honestAgentPrefix, i+1, id.addr, hs)
+			}
+		}
+		o.Probe("cold-start-honest-identified-afterwards")
 	}
 
 	// ---- honest peers leave (their keep-alives would dominate the long advances)
@@ -1447,6 +1529,7 @@ func (x *exec) main(tape *simrt.Tape) {
 		settle(quiesce)
 		x.checkByz("after-final-close", true)
 	}
+	x.startWaiters()
 	settle(peerstore.RecentlyConnectedAddrTTL + 2*time.Minute)
 	if n := len(O.Swarm.ConnsToPeer(w.byz.id)); n != 0 {
 		o.Trouble = fmt.Sprintf("observer still lists %d connections to byz after the final closes", n)
@@ -1895,6 +1978,6 @@ func (x *exec) summarise() {
 		}
 	}
 	sort.Strings(sig)
-	o.Sig = fmt.Sprintf("%s|%d|%v|conns=%d|acts=%d/%d|trig=%d|%s", x.pl.sec, x.pl.link, x.pl.bigProtos, len(x.conns), x.fired, len(x.pl.acts), triggered, strings.Join(sig, ";"))
+	o.Sig = fmt.Sprintf("cold=%v|lazy=%v|", x.pl.cold, x.pl.lazyWait) + fmt.Sprintf("%s|%d|%v|conns=%d|acts=%d/%d|trig=%d|%s", x.pl.sec, x.pl.link, x.pl.bigProtos, len(x.conns), x.fired, len(x.pl.acts), triggered, strings.Join(sig, ";"))
 	o.Nontrivial = adversarialConsumed || raced || triggered > 0
 }
